@@ -244,12 +244,16 @@ def gen_images(ctx):
     sample(4, 2000 if ctx.thorough else 500, 3, 's4k3')
     sample(6, 1000 if ctx.thorough else 300, 3, 's6k3')
     # --- the MC quick space through the real code (thorough): N=3, two keys in different anchors, pay 1, esz in {0, 2} ----
+    # every second image of it, the parity chosen by the seed: two runs with seeds of different parity cover the whole space
     if ctx.thorough:
         vs = [slot_values(3, s, (1, 2), [U], [0, 2 * U], bad_meta=False) for s in range(3)]
+        k = 0
         for a in vs[0]:
             for b in vs[1]:
                 for c in vs[2]:
-                    im.add(3, [0, 1], [a, b, c], 'x3')
+                    k += 1
+                    if k % 2 == ctx.seed % 2:
+                        im.add(3, [0, 1], [a, b, c], 'x3')
     # --- directed lattice ---------------------------------------------------------------------------------------------------
     n = 3
     slot_size = (DB_BYTES - DB_HEADER) // n
@@ -649,8 +653,8 @@ def run(ctx):
     for i in (0, 1, 2, 3, len(cases) // 2):
         ctx.sample({'line': lines[i], 'out': cases[i]['out']})
     ctx.cov['rule'] = ('image families: x2 = every 2-slot image over {E, G, H(key 1..2, first, next, pay, esz, inode metadata ok/bad)} for '
-                       'two key->anchor maps; s3/s4/s4k3/s6k3 = seeded random images of 3/4/6 slots with 2/3 keys; x3 (thorough) = every image '
-                       'of the TLC quick space; directed = garbage kinds, truncation, metadata sizes/keys/flags, chain shapes; probes = the '
+                       'two key->anchor maps; s3/s4/s4k3/s6k3 = seeded random images of 3/4/6 slots with 2/3 keys; x3 (thorough) = every second '
+                       'image of the TLC quick space (parity = seed parity); directed = garbage kinds, truncation, metadata sizes/keys/flags, chain shapes; probes = the '
                        'finding witnesses; stored = a db written by the real Rock::SwapDir (5 entries of 1-3 slots, 63 slots) with 1-3 slot header fields '
                        'mutated. All images are distinct (de-duplicated by driver line); non-trivial = at least one sane slot header. TLC additionally '
                        'explores the machine over the complete bounded image space (mc_states).')
